@@ -83,8 +83,16 @@ def main():
         print(json.dumps(r))
         sys.stdout.flush()
         out.append(r)
-    with open(os.path.join(HERE, 'selftest', 'sensitivity_result.json'), 'w') as f:
-        json.dump(out, f, indent=1)
+    # merge into the recorded results (a partial invocation must not drop the other entries)
+    path = os.path.join(HERE, 'selftest', 'sensitivity_result.json')
+    merged = {}
+    if os.path.exists(path):
+        for r in json.load(open(path)):
+            merged[(r['mutant'], r['property'])] = r
+    for r in out:
+        merged[(r['mutant'], r['property'])] = r
+    with open(path, 'w') as f:
+        json.dump([merged[k] for k in sorted(merged)], f, indent=1)
     missed = [r for r in out if r['result'] != 'caught']
     print(f"{len(out) - len(missed)}/{len(out)} mutants caught")
     return 1 if missed else 0
